@@ -27,8 +27,7 @@ impl Feedback for NoFeedback {
 fn stub_lock<T: ?Sized>(m: &Mutex<T>) -> std::sync::LockResult<std::sync::MutexGuard<'_, T>> {
     match m.try_lock() {
         Ok(g) => Ok(g),
-        Err(std::sync::TryLockError::Poisoned(p)) => Err(p),
-        Err(std::sync::TryLockError::WouldBlock) => panic!("self-deadlock: mutex already held"),
+        Err(_) => panic!("mutex poisoned or already held in a single-threaded harness: self-deadlock"),
     }
 }
 
@@ -46,6 +45,11 @@ fn stub_tr_enabled(_m: &tracing::Metadata<'static>, _i: tracing::subscriber::Int
     false
 }
 fn stub_tr_dispatch<'a: 'a>(_m: &'static tracing::Metadata<'static>, _f: &'a tracing::field::ValueSet<'_>) {}
+
+/// Error/diagnostic texts are irrelevant (DESIGN.md section 2.3 `no_fmt`).
+fn stub_fmt_write(_o: &mut dyn core::fmt::Write, _a: core::fmt::Arguments<'_>) -> core::fmt::Result {
+    Ok(())
+}
 
 /// Virtual clock with a concrete start (natively: the real clock).
 fn h_start_concrete() -> Instant {
@@ -131,6 +135,7 @@ fn quota_step(window_clause: bool) {
 #[kani::stub(tracing::callsite::DefaultCallsite::interest, stub_tr_interest)]
 #[kani::stub(tracing::__macro_support::__is_enabled, stub_tr_enabled)]
 #[kani::stub(tracing::Event::dispatch, stub_tr_dispatch)]
+#[kani::stub(core::fmt::write, stub_fmt_write)]
 fn c13_cc_quota_is_pacer_only() {
     quota_step(false);
 }
@@ -149,6 +154,7 @@ fn c13_cc_quota_is_pacer_only() {
 #[kani::stub(tracing::callsite::DefaultCallsite::interest, stub_tr_interest)]
 #[kani::stub(tracing::__macro_support::__is_enabled, stub_tr_enabled)]
 #[kani::stub(tracing::Event::dispatch, stub_tr_dispatch)]
+#[kani::stub(core::fmt::write, stub_fmt_write)]
 fn c13_pending_quota_respects_window() {
     quota_step(true);
 }
@@ -165,6 +171,7 @@ fn c13_pending_quota_respects_window() {
 #[kani::stub(tracing::callsite::DefaultCallsite::interest, stub_tr_interest)]
 #[kani::stub(tracing::__macro_support::__is_enabled, stub_tr_enabled)]
 #[kani::stub(tracing::Event::dispatch, stub_tr_dispatch)]
+#[kani::stub(core::fmt::write, stub_fmt_write)]
 fn c13_cc_pto_expiry() {
     let now = h_start_concrete();
     let is_server: bool = kani::any();
